@@ -8,6 +8,7 @@
 #include <asam_cmp/capture_module_payload.h>
 #include <asam_cmp/decoder.h>
 #include <asam_cmp/encoder.h>
+#include <locale>
 #include <asam_cmp/ethernet_payload.h>
 #include <asam_cmp/interface_payload.h>
 #include <asam_cmp/lin_payload.h>
@@ -62,6 +63,19 @@ void operator delete(void* p, size_t) noexcept
     free(p);
 }
 #endif
+
+// the harness' own streams always use the classic locale: the process-global C++ locale is deliberately a hostile one (digit
+// grouping, decimal comma) - what the library produces must not depend on it
+struct CStream : std::ostringstream
+{
+    CStream() { imbue(std::locale::classic()); }
+};
+struct HostileNumpunct : std::numpunct<char>
+{
+    char do_thousands_sep() const override { return ','; }
+    std::string do_grouping() const override { return "\3"; }
+    char do_decimal_point() const override { return ','; }
+};
 
 static const char* HEX = "0123456789abcdef";
 static std::string hex(const uint8_t* p, size_t n)
@@ -123,7 +137,7 @@ static uint32_t fbits(T f)
 // ---- packet observation ----
 static std::string obsPacket(const Packet& p)
 {
-    std::ostringstream o;
+    CStream o;
     o << "K " << +p.getVersion() << " " << p.getDeviceId() << " " << +p.getStreamId() << " " << p.getSequenceCounter() << " ";
     const Payload* pl = p.payload.get();
     if (pl)
@@ -188,7 +202,7 @@ static long long off(const Payload& p, const void* q)
 // all const accessors of a typed payload; views are printed as (offset relative to raw payload, length)
 static std::string viewOf(int kind, const Payload& base)
 {
-    std::ostringstream o;
+    CStream o;
     o << "W";
     switch (kind)
     {
@@ -336,7 +350,7 @@ static int kindOfType(uint32_t t)
 
 struct World
 {
-    std::ostringstream out;
+    CStream out;
     std::unique_ptr<Encoder> enc;
     std::map<long long, std::unique_ptr<Decoder>> dec;
     std::map<long long, Packet> pk;
@@ -827,6 +841,17 @@ struct World
             if (p.payload && p.payload->getLength())
                 p.payload->payloadData[0] ^= 0xFF;
         }
+        else if (op == "XETH")
+        {
+            // the idiom of example/main.cpp: edit the payload the packet already owns, through the non-const getPayload()
+            Packet& p = pk[N(0)];
+            if (p.payload)
+            {
+                Bytes d(B(0));
+                d.shrink_to_fit();
+                static_cast<EthernetPayload&>(p.getPayload()).setData(d.data(), static_cast<uint16_t>(d.size()));
+            }
+        }
         else if (op == "XTYPE")
         {
             Packet& p = pk[N(0)];
@@ -948,6 +973,8 @@ static std::string runCase(const std::vector<std::string>& lines)
 
 int main(int argc, char** argv)
 {
+    std::locale::global(std::locale(std::locale::classic(), new HostileNumpunct));
+    std::cout.imbue(std::locale::classic());
     // VERIF_FILL: hex string (1..16 bytes) repeated over every fresh operator-new block
     const char* fill = getenv("VERIF_FILL");
     if (fill && *fill)
